@@ -351,6 +351,43 @@ def rule_t4(src, rep, it, fg, bg, sty, counts):
                       "raises %s" % r[1] if r[0] == "raise" else "is accepted as %s" % runs_of(r[1])), witness={"helper": name, "args": a, "kwargs": k})
             rep.case(True)
     counts["helper_contradictions"] = n_h
+    # the same contradiction spelled through style= (a functools.partial lets a call-time keyword replace the bound one)
+    silent = []
+    for name, p in sorted(env.items()):
+        if not _is_helper(p) or name.startswith("_"):
+            continue
+        if name in fg:
+            other = [c for c in sorted(fg) if c != name][0]
+        elif name.startswith("on_") and name[3:] in bg:
+            other = "on_" + [c for c in sorted(bg) if c != name[3:]][0]
+        else:
+            continue
+        try:
+            v = it.folder.v_call(p, [T], {"style": other}, None, {})
+            r = ("ok", v)
+        except FoldedRaise as e:
+            r = ("raise", e.name)
+        except Unknown as e:
+            raise AnalysisError("fmtfuncs.%s outside the evaluated subset: %s" % (name, e))
+        rep.case(True)
+        if r != ("raise", "ValueError"):
+            silent.append((name, other, r))
+    rep.ob("T4-helper-plus-style-of-same-attribute-raises-ValueError", "curtsies/fmtfuncs.py", "fmtfuncs:<colour helpers>",
+           "colour helper called with style=<another colour of the same kind>", not silent,
+           "%s(t, style=%r) %s instead of raising ValueError: the helper's own colour is silently replaced (%d helpers behave so)"
+           % ((silent[0][0], silent[0][1], "gives %s" % runs_of(silent[0][2][1]) if silent[0][2][0] == "ok" else "raises %s" % silent[0][2][1], len(silent))
+              if silent else ("", "", "", 0)), witness={"helper": silent[0][0], "kwargs": {"style": silent[0][1]}} if silent else None)
+    for label, a, k, rule in (
+            ("a style switched on by name and off by keyword", ("bold",), {"bold": False}, "T4-contradictory-style-raises-ValueError"),
+            ("a style switched on through style= and off by keyword", (), {"style": "underline", "underline": False}, "T4-contradictory-style-raises-ValueError"),
+            ("a style keyword with a non-boolean value", (), {"bold": "yes"}, "T4-mistyped-style-value-raises-ValueError")):
+        r = call_fmtstr(it, T, *a, **k)
+        if r[0] == "opaque":
+            raise AnalysisError("fmtstr outside the evaluated subset for %s: %s" % (label, r[1]))
+        rep.ob(rule, f.where(), f.scope, "%s: fmtstr(t, *%r, **%r)" % (label, a, k), r == ("raise", "ValueError"),
+               "%s must raise ValueError; it %s" % (label, "raises %s" % r[1] if r[0] == "raise" else "is accepted as %s" % runs_of(r[1])),
+               witness={"args": a, "kwargs": k})
+        rep.case(True)
     # bad first argument
     r = call_fmtstr(it, 42)
     rep.ob("T4-non-text-raises-ValueError", f.where(), "formatstring:fmtstr", "fmtstr(42)", r == ("raise", "ValueError"),
